@@ -96,6 +96,17 @@ def lossy_configs(quick):
             for c in base for d in ((0,) if quick else (0, 1))]
 
 
+def slow_cleanup_configs(quick):
+    """the segment answers, but slowly, once the task has been cancelled: every frame sent after
+    the first cancel() takes 0.3 / 0.7 (thorough also 1.1) virtual seconds round the segment -
+    longer than the cycle, than any poll interval of the package, shorter than the 5 virtual
+    seconds the harness waits.  The clean-up must still ask every writer back and the task must
+    still end cancelled: nothing in the property lets a slow terminal off"""
+    base = [c for c in async_configs(quick) if c["nterm"] == 2 and c["delay"] > 0] \
+        + [c for c in async_configs(quick) if c["nterm"] == 3 and sum(c["rw"]) >= 2][:2 if quick else None]
+    return [dict(c, slow_after_cancel=d) for c in base for d in ((0.7,) if quick else (0.3, 0.7, 1.1))]
+
+
 def depth_rule(quick, cfg):
     """how many cancel() calls per run, as a function of the iteration k of the first one and
     of n = the last k: two everywhere (the second lands in the clean-up) - for silent-terminal
@@ -103,6 +114,8 @@ def depth_rule(quick, cfg):
     holds everything [thorough: for every k of the gating configurations without a silent
     terminal]"""
     if cfg.get("silent") is not None:
+        return (lambda k, n: 1) if quick else (lambda k, n: 2)
+    if cfg.get("slow_after_cancel") is not None:
         return (lambda k, n: 1) if quick else (lambda k, n: 2)
     if not quick and cfg in async_configs(False):
         return lambda k, n: 3
@@ -351,7 +364,9 @@ def run(ctx):
         ctx.extra["silent_terminal_configs"] = len(silent)
         lossy = lossy_configs(ctx.quick)
         ctx.extra["lost_cyclic_frame_configs"] = len(lossy)
-        for cfg in configs + silent + lossy:
+        slow = slow_cleanup_configs(ctx.quick)
+        ctx.extra["slow_cleanup_configs"] = len(slow)
+        for cfg in configs + silent + lossy + slow:
             ref, cases = run_async_cases(ctx, cfg, depth_rule(ctx.quick, cfg))
             points.setdefault(cfg["kind"], []).append(ref["cancel_iters"][0] + 1)
             todo += cases
@@ -385,8 +400,9 @@ def run(ctx):
                 "k up to the end of the second cycle x every later iteration for a second cancel() "
                 "[x every iteration later still for a third: at the end of the second cycle; "
                 "thorough: every k of the gating configurations]; the same with each terminal in "
-                "turn going silent at the first cancel(), and with the cyclic frames lost from "
-                "the n-th on; process: one of the named points x optional second cancel()); "
+                "turn going silent at the first cancel(), with the cyclic frames lost from "
+                "the n-th on, and with every frame after the first cancel() taking 0.3-1.1 "
+                "virtual seconds; process: one of the named points x optional second cancel()); "
                 "non-trivial = the group held something (an FMMU, an unanswered OPERATIONAL "
                 "request, its program-table entry, a running child) when cancel() was called")
     ctx.assumptions += [
